@@ -262,6 +262,14 @@ func (p *Prog) resolveRole(role string) (*ssa.Function, error) {
 					c = append(c, f)
 				}
 			}
+			// … and memoises a Result on the Func (the run-once memo)
+			Instrs(f, func(in ssa.Instruction) {
+				if st, ok := in.(*ssa.Store); ok {
+					if fr, ok := AsFieldAddr(st.Addr); ok && fr.Owner == "Func" && NamedOf(st.Val.Type()) == "Result" && !p.FreshIn(st.Addr) {
+						c = append(c, f)
+					}
+				}
+			})
 		}
 		return one(role, c)
 
